@@ -30,6 +30,8 @@ def main():
             pairs = [tuple(p) for p in b["map"]]
             decreasing = any(pairs[i + 1][1] < pairs[i][1] for i in range(len(pairs) - 1))
             clen = pairs[-1][0] + 2
+            # what a line-start reader gives back: an entry that repeats the line of the entry before it starts no line
+            expect = [pairs[0]] + [pairs[i] for i in range(1, len(pairs)) if pairs[i][1] != pairs[i - 1][1]]
             for vt, cname in TYPES:
                 fmt = fmt_of(vt)
                 if decreasing and fmt == "lnotab_u":
@@ -50,7 +52,7 @@ def main():
                         base = {"fmt": fmt, "first": b["first"], "tab": tab, "clen": clen, "o2l": [], "ranges": [], "ulines": [],
                                 "upos": [], "sl": [], "ioffs": [], "has": ["starts"], "type": type(co).__name__, "map": b["map"]}
                         # (a) the reference reader of the era must decode the frozen bytes back to the mapping
-                        fh.write(json.dumps(dict(base, id="decode:" + ident, starts=[list(p) for p in pairs])) + "\n")
+                        fh.write(json.dumps(dict(base, id="decode:" + ident, starts=[list(p) for p in expect])) + "\n")
                         # (b) xdis's own line-start routine on the frozen object
                         fh.write(json.dumps(dict(base, id="xdis:" + ident, starts=xstarts)) + "\n")
                     except Exception as e:
